@@ -7,7 +7,8 @@ package rules
 //   C20.atomic  compound operations (len test + index, load + append + store, ...) are one critical section
 //   C20.order   no deadlock: no relock, no lock leak, nothing unknown or blocking is called with the lock held
 // c20_stack.go: C20.stack (push/pop/stop/trigger arithmetic), c20_eval.go: C20.eval, C20.writer,
-// C20.ctxrs, C20.sig, C20.repl and the positive controls.
+// C20.ctxrs, C20.sig, C20.repl; c20_sigclose.go: C20.sigclose (channel typestate of the signal bridge);
+// c20_controls.go: the positive controls.
 
 import (
 	"fmt"
@@ -38,6 +39,7 @@ func runC20(r *fw.Run, p *fw.Program) {
 	c20Writer(r, p)
 	c20CtxRS(r, p)
 	c20Sig(r, p)
+	c20SigClose(r, p)
 	c20Repl(r, p)
 }
 
